@@ -2,62 +2,24 @@
 // Use of this source code is governed by a BSD-style
 // license that can be found in the LICENSE file.
 
-// Package ssa/interp defines an interpreter for the SSA
-// representation of Go programs.
-//
-// This interpreter is provided as an adjunct for testing the SSA
-// construction algorithm.  Its purpose is to provide a minimal
-// metacircular implementation of the dynamic semantics of each SSA
-// instruction.  It is not, and will never be, a production-quality Go
-// interpreter.
-//
-// The following is a partial list of Go features that are currently
-// unsupported or incomplete in the interpreter.
-//
-// * Unsafe operations, including all uses of unsafe.Pointer, are
-// impossible to support given the "boxed" value representation we
-// have chosen.
-//
-// * The reflect package is only partially implemented.
-//
-// * The "testing" package is no longer supported because it
-// depends on low-level details that change too often.
-//
-// * "sync/atomic" operations are not atomic due to the "boxed" value
-// representation: it is not possible to read, modify and write an
-// interface value atomically. As a consequence, Mutexes are currently
-// broken.
-//
-// * recover is only partially implemented.  Also, the interpreter
-// makes no attempt to distinguish target panics from interpreter
-// crashes.
-//
-// * the sizes of the int, uint and uintptr types in the target
-// program are assumed to be the same as those of the interpreter
-// itself.
-//
-// * all values occupy space, even those of types defined by the spec
-// to have zero size, e.g. struct{}.  This can cause asymptotic
-// performance degradation.
-//
-// * os.Exit is implemented using panic, causing deferred functions to
-// run.
-package interp // import "golang.org/x/tools/go/ssa/interp"
+// Package interp is symgo's executor: a fork of golang.org/x/tools@v0.29.0
+// go/ssa/interp (the reference concrete SSA interpreter) extended with
+// symbolic scalar values (*sym), solver-decided branching (pathCtx.decide),
+// association-list maps with symbolic keys, contract-level models of the
+// standard library functions go-fed/activity calls (intrinsics.go), and the
+// vf* harness API (vf.go).  See /verif/DESIGN.md §3 and Appendix D.
+package interp
 
 import (
 	"fmt"
 	"go/token"
 	"go/types"
-	"log"
 	"os"
 	"reflect"
 	"runtime"
 	"slices"
-	"sync/atomic"
-	_ "unsafe"
 
 	"golang.org/x/tools/go/ssa"
-	"golang.org/x/tools/internal/typeparams"
 )
 
 type continuation int
@@ -76,20 +38,42 @@ const (
 	EnableTracing                   // Print a trace of all instructions as they are interpreted.
 )
 
-type methodSet map[string]*ssa.Function
+// runtimePanic is a Go run-time panic of the *target* program (nil
+// dereference, index out of range, ...), raised explicitly by the engine.
+type runtimePanic struct{ msg string }
 
-// State shared between all interpreted goroutines.
+func (r runtimePanic) Error() string { return r.msg }
+
+// engineError marks a limitation or bug of the engine itself: the path is
+// reported inconclusive, never as a verdict about the target.
+type engineError struct{ msg string }
+
+func engineErr(msg string) engineError { return engineError{msg} }
+
+// pathAbort ends the current path (assumption failed, infeasible, budget).
+type pathAbort struct {
+	status string
+	msg    string
+}
+
+type fnInfo struct {
+	idx map[ssa.Value]int
+	n   int
+}
+
+// State of one executing path.
 type interpreter struct {
-	osArgs             []value                // the value of os.Args
-	prog               *ssa.Program           // the SSA program
-	globals            map[*ssa.Global]*value // addresses of global variables (immutable)
-	mode               Mode                   // interpreter options
-	reflectPackage     *ssa.Package           // the fake reflect package
-	errorMethods       methodSet              // the method set of reflect.error, which implements the error interface.
-	rtypeMethods       methodSet              // the method set of rtype, which implements the reflect.Type interface.
-	runtimeErrorString types.Type             // the runtime.errorString type
-	sizes              types.Sizes            // the effective type-sizing function
-	goroutines         int32                  // atomically updated
+	prog               *ssa.Program
+	globals            map[*ssa.Global]*value
+	mode               Mode
+	runtimeErrorString types.Type
+	sizes              types.Sizes
+	pc                 *pathCtx
+	ld                 *Loaded
+	fninfo             map[*ssa.Function]*fnInfo
+	consts             map[*ssa.Const]value
+	depth              int
+	sched              *scheduler
 }
 
 type deferred struct {
@@ -103,14 +87,52 @@ type frame struct {
 	i                *interpreter
 	caller           *frame
 	fn               *ssa.Function
+	info             *fnInfo
 	block, prevBlock *ssa.BasicBlock
-	env              map[ssa.Value]value // dynamic values of SSA variables
+	env              []value // dynamic values of SSA variables, indexed by info.idx
 	locals           []value
 	defers           *deferred
 	result           value
 	panicking        bool
 	panic            interface{}
 	phitemps         []value // temporaries for parallel phi assignment
+	callpos          token.Pos
+	visits           map[*ssa.BasicBlock]int
+}
+
+func (i *interpreter) infoFor(fn *ssa.Function) *fnInfo {
+	if inf := i.fninfo[fn]; inf != nil {
+		return inf
+	}
+	inf := &fnInfo{idx: make(map[ssa.Value]int)}
+	add := func(v ssa.Value) {
+		inf.idx[v] = inf.n
+		inf.n++
+	}
+	for _, p := range fn.Params {
+		add(p)
+	}
+	for _, fv := range fn.FreeVars {
+		add(fv)
+	}
+	for _, l := range fn.Locals {
+		add(l)
+	}
+	for _, b := range fn.Blocks {
+		for _, ins := range b.Instrs {
+			if v, ok := ins.(ssa.Value); ok {
+				if _, dup := inf.idx[v]; !dup {
+					add(v)
+				}
+			}
+		}
+	}
+	i.fninfo[fn] = inf
+	return inf
+}
+
+func (fr *frame) set(key ssa.Value, v value) {
+	fr.env[fr.info.idx[key]] = v
 }
 
 func (fr *frame) get(key ssa.Value) value {
@@ -122,31 +144,62 @@ func (fr *frame) get(key ssa.Value) value {
 	case *ssa.Function, *ssa.Builtin:
 		return key
 	case *ssa.Const:
-		return constValue(key)
+		if v, ok := fr.i.consts[key]; ok {
+			return v
+		}
+		v := constValue(key)
+		switch v.(type) {
+		case structure, array:
+			// aggregates are mutable: do not share
+		default:
+			fr.i.consts[key] = v
+		}
+		return v
 	case *ssa.Global:
 		if r, ok := fr.i.globals[key]; ok {
 			return r
 		}
+		// globals of non-target packages are created lazily, zero-valued
+		cell := zero(mustDeref(key.Type()))
+		fr.i.globals[key] = &cell
+		return &cell
 	}
-	if r, ok := fr.env[key]; ok {
-		return r
+	if ix, ok := fr.info.idx[key]; ok {
+		return fr.env[ix]
 	}
-	panic(fmt.Sprintf("get: no value for %T: %v", key, key.Name()))
+	panic(engineErr(fmt.Sprintf("get: no value for %T: %v", key, key.Name())))
+}
+
+func mustDeref(t types.Type) types.Type {
+	if p, ok := t.Underlying().(*types.Pointer); ok {
+		return p.Elem()
+	}
+	panic(fmt.Sprintf("mustDeref: %s is not a pointer", t))
+}
+
+// isAbort reports whether a recovered panic value must unwind the whole
+// path without running target defers.
+func isAbort(p interface{}) bool {
+	switch p.(type) {
+	case pathAbort, engineError, threadKill:
+		return true
+	}
+	return false
 }
 
 // runDefer runs a deferred call d.
 // It always returns normally, but may set or clear fr.panic.
 func (fr *frame) runDefer(d *deferred) {
-	if fr.i.mode&EnableTracing != 0 {
-		fmt.Fprintf(os.Stderr, "%s: invoking deferred function call\n",
-			fr.i.prog.Fset.Position(d.instr.Pos()))
-	}
 	var ok bool
 	defer func() {
 		if !ok {
 			// Deferred call created a new state of panic.
+			p := recover()
+			if isAbort(p) {
+				panic(p)
+			}
 			fr.panicking = true
-			fr.panic = recover()
+			fr.panic = p
 		}
 	}()
 	call(fr.i, fr, d.instr.Pos(), d.fn, d.args)
@@ -154,16 +207,6 @@ func (fr *frame) runDefer(d *deferred) {
 }
 
 // runDefers executes fr's deferred function calls in LIFO order.
-//
-// On entry, fr.panicking indicates a state of panic; if
-// true, fr.panic contains the panic value.
-//
-// On completion, if a deferred call started a panic, or if no
-// deferred call recovered from a previous state of panic, then
-// runDefers itself panics after the last deferred call has run.
-//
-// If there was no initial state of panic, or it was recovered from,
-// runDefers returns normally.
 func (fr *frame) runDefers() {
 	for d := fr.defers; d != nil; d = d.tail {
 		fr.runDefer(d)
@@ -174,16 +217,24 @@ func (fr *frame) runDefers() {
 	}
 }
 
-// lookupMethod returns the method set for type typ, which may be one
-// of the interpreter's fake types.
+// lookupMethod returns the method set for type typ.
 func lookupMethod(i *interpreter, typ types.Type, meth *types.Func) *ssa.Function {
-	switch typ {
-	case rtypeType:
-		return i.rtypeMethods[meth.Id()]
-	case errorType:
-		return i.errorMethods[meth.Id()]
-	}
 	return i.prog.LookupMethod(typ, meth.Pkg(), meth.Name())
+}
+
+func derefPtr(x value, what string) *value {
+	p, ok := x.(*value)
+	if !ok {
+		panic(engineErr(fmt.Sprintf("%s: expected pointer, got %T", what, x)))
+	}
+	if p == nil {
+		panic(runtimePanic{"runtime error: invalid memory address or nil pointer dereference"})
+	}
+	return p
+}
+
+func indexPanic(i int64, n int) runtimePanic {
+	return runtimePanic{fmt.Sprintf("runtime error: index out of range [%d] with length %d", i, n)}
 }
 
 // visitInstr interprets a single ssa.Instruction within the activation
@@ -195,35 +246,35 @@ func visitInstr(fr *frame, instr ssa.Instruction) continuation {
 		// no-op
 
 	case *ssa.UnOp:
-		fr.env[instr] = unop(instr, fr.get(instr.X))
+		fr.set(instr, unop(fr, instr, fr.get(instr.X)))
 
 	case *ssa.BinOp:
-		fr.env[instr] = binop(instr.Op, instr.X.Type(), fr.get(instr.X), fr.get(instr.Y))
+		fr.set(instr, binop(fr, instr.Op, instr.X.Type(), fr.get(instr.X), fr.get(instr.Y)))
 
 	case *ssa.Call:
 		fn, args := prepareCall(fr, &instr.Call)
-		fr.env[instr] = call(fr.i, fr, instr.Pos(), fn, args)
+		fr.set(instr, call(fr.i, fr, instr.Pos(), fn, args))
 
 	case *ssa.ChangeInterface:
-		fr.env[instr] = fr.get(instr.X)
+		fr.set(instr, fr.get(instr.X))
 
 	case *ssa.ChangeType:
-		fr.env[instr] = fr.get(instr.X) // (can't fail)
+		fr.set(instr, fr.get(instr.X)) // (can't fail)
 
 	case *ssa.Convert:
-		fr.env[instr] = conv(instr.Type(), instr.X.Type(), fr.get(instr.X))
+		fr.set(instr, conv(fr, instr.Type(), instr.X.Type(), fr.get(instr.X)))
 
 	case *ssa.SliceToArrayPointer:
-		fr.env[instr] = sliceToArrayPointer(instr.Type(), instr.X.Type(), fr.get(instr.X))
+		fr.set(instr, sliceToArrayPointer(instr.Type(), instr.X.Type(), fr.get(instr.X)))
 
 	case *ssa.MakeInterface:
-		fr.env[instr] = iface{t: instr.X.Type(), v: fr.get(instr.X)}
+		fr.set(instr, iface{t: instr.X.Type(), v: fr.get(instr.X)})
 
 	case *ssa.Extract:
-		fr.env[instr] = fr.get(instr.Tuple).(tuple)[instr.Index]
+		fr.set(instr, fr.get(instr.Tuple).(tuple)[instr.Index])
 
 	case *ssa.Slice:
-		fr.env[instr] = slice(fr.get(instr.X), fr.get(instr.Low), fr.get(instr.High), fr.get(instr.Max))
+		fr.set(instr, slice(fr, fr.get(instr.X), fr.get(instr.Low), fr.get(instr.High), fr.get(instr.Max)))
 
 	case *ssa.Return:
 		switch len(instr.Results) {
@@ -231,7 +282,7 @@ func visitInstr(fr *frame, instr ssa.Instruction) continuation {
 		case 1:
 			fr.result = fr.get(instr.Results[0])
 		default:
-			var res []value
+			res := make([]value, 0, len(instr.Results))
 			for _, r := range instr.Results {
 				res = append(res, fr.get(r))
 			}
@@ -247,15 +298,24 @@ func visitInstr(fr *frame, instr ssa.Instruction) continuation {
 		panic(targetPanic{fr.get(instr.X)})
 
 	case *ssa.Send:
-		fr.get(instr.Chan).(chan value) <- fr.get(instr.X)
+		chanSend(fr, fr.get(instr.Chan), fr.get(instr.X))
 
 	case *ssa.Store:
-		store(typeparams.MustDeref(instr.Addr.Type()), fr.get(instr.Addr).(*value), fr.get(instr.Val))
+		store(mustDeref(instr.Addr.Type()), derefPtr(fr.get(instr.Addr), "Store"), fr.get(instr.Val))
 
 	case *ssa.If:
 		succ := 1
-		if fr.get(instr.Cond).(bool) {
-			succ = 0
+		switch c := fr.get(instr.Cond).(type) {
+		case bool:
+			if c {
+				succ = 0
+			}
+		case *sym:
+			if fr.i.pc.decide(c.e, fr) {
+				succ = 0
+			}
+		default:
+			panic(engineErr(fmt.Sprintf("If on %T", c)))
 		}
 		fr.prevBlock, fr.block = fr.block, fr.block.Succs[succ]
 		return kJump
@@ -279,161 +339,119 @@ func visitInstr(fr *frame, instr ssa.Instruction) continuation {
 
 	case *ssa.Go:
 		fn, args := prepareCall(fr, &instr.Call)
-		atomic.AddInt32(&fr.i.goroutines, 1)
-		go func() {
-			call(fr.i, nil, instr.Pos(), fn, args)
-			atomic.AddInt32(&fr.i.goroutines, -1)
-		}()
+		spawn(fr, instr, fn, args)
 
 	case *ssa.MakeChan:
-		fr.env[instr] = make(chan value, asInt64(fr.get(instr.Size)))
+		fr.set(instr, makeChan(fr, int(asInt64(fr.get(instr.Size)))))
 
 	case *ssa.Alloc:
 		var addr *value
 		if instr.Heap {
 			// new
 			addr = new(value)
-			fr.env[instr] = addr
+			fr.set(instr, addr)
 		} else {
 			// local
-			addr = fr.env[instr].(*value)
+			addr = fr.get(instr).(*value)
 		}
-		*addr = zero(typeparams.MustDeref(instr.Type()))
+		*addr = zero(mustDeref(instr.Type()))
 
 	case *ssa.MakeSlice:
-		slice := make([]value, asInt64(fr.get(instr.Cap)))
+		capv := fr.i.pc.concretize(fr, fr.get(instr.Cap), 0, 16, "MakeSlice cap")
+		lenv := fr.i.pc.concretize(fr, fr.get(instr.Len), 0, int(capv), "MakeSlice len")
+		if capv < 0 || lenv < 0 || lenv > capv {
+			panic(runtimePanic{"runtime error: makeslice: len out of range"})
+		}
+		slice := make([]value, capv)
 		tElt := instr.Type().Underlying().(*types.Slice).Elem()
 		for i := range slice {
 			slice[i] = zero(tElt)
 		}
-		fr.env[instr] = slice[:asInt64(fr.get(instr.Len))]
+		fr.set(instr, slice[:lenv])
 
 	case *ssa.MakeMap:
-		var reserve int64
-		if instr.Reserve != nil {
-			reserve = asInt64(fr.get(instr.Reserve))
-		}
-		if !fitsInt(reserve, fr.i.sizes) {
-			panic(fmt.Sprintf("ssa.MakeMap.Reserve value %d does not fit in int", reserve))
-		}
-		fr.env[instr] = makeMap(instr.Type().Underlying().(*types.Map).Key(), reserve)
+		fr.set(instr, newAmap(instr.Type().Underlying().(*types.Map)))
 
 	case *ssa.Range:
-		fr.env[instr] = rangeIter(fr.get(instr.X), instr.X.Type())
+		fr.set(instr, rangeIter(fr, fr.get(instr.X), instr.X.Type()))
 
 	case *ssa.Next:
-		fr.env[instr] = fr.get(instr.Iter).(iter).next()
+		fr.set(instr, fr.get(instr.Iter).(iter).next())
 
 	case *ssa.FieldAddr:
-		fr.env[instr] = &(*fr.get(instr.X).(*value)).(structure)[instr.Field]
+		p := derefPtr(fr.get(instr.X), "FieldAddr")
+		fr.set(instr, &(*p).(structure)[instr.Field])
 
 	case *ssa.Field:
-		fr.env[instr] = fr.get(instr.X).(structure)[instr.Field]
+		fr.set(instr, fr.get(instr.X).(structure)[instr.Field])
 
 	case *ssa.IndexAddr:
 		x := fr.get(instr.X)
-		idx := fr.get(instr.Index)
 		switch x := x.(type) {
 		case []value:
-			fr.env[instr] = &x[asInt64(idx)]
+			idx := fr.i.pc.concretize(fr, fr.get(instr.Index), 0, len(x)-1, "IndexAddr")
+			if idx < 0 || idx >= int64(len(x)) {
+				panic(indexPanic(idx, len(x)))
+			}
+			fr.set(instr, &x[idx])
 		case *value: // *array
-			fr.env[instr] = &(*x).(array)[asInt64(idx)]
+			a := (*derefPtr(x, "IndexAddr")).(array)
+			idx := fr.i.pc.concretize(fr, fr.get(instr.Index), 0, len(a)-1, "IndexAddr")
+			if idx < 0 || idx >= int64(len(a)) {
+				panic(indexPanic(idx, len(a)))
+			}
+			fr.set(instr, &a[idx])
 		default:
-			panic(fmt.Sprintf("unexpected x type in IndexAddr: %T", x))
+			panic(engineErr(fmt.Sprintf("unexpected x type in IndexAddr: %T", x)))
 		}
 
 	case *ssa.Index:
 		x := fr.get(instr.X)
-		idx := fr.get(instr.Index)
-
 		switch x := x.(type) {
 		case array:
-			fr.env[instr] = x[asInt64(idx)]
-		case string:
-			fr.env[instr] = x[asInt64(idx)]
+			idx := fr.i.pc.concretize(fr, fr.get(instr.Index), 0, len(x)-1, "Index")
+			if idx < 0 || idx >= int64(len(x)) {
+				panic(indexPanic(idx, len(x)))
+			}
+			fr.set(instr, x[idx])
+		case string, *sym:
+			fr.set(instr, stringIndex(fr, x, fr.get(instr.Index)))
 		default:
-			panic(fmt.Sprintf("unexpected x type in Index: %T", x))
+			panic(engineErr(fmt.Sprintf("unexpected x type in Index: %T", x)))
 		}
 
 	case *ssa.Lookup:
-		fr.env[instr] = lookup(instr, fr.get(instr.X), fr.get(instr.Index))
+		fr.set(instr, lookup(fr, instr, fr.get(instr.X), fr.get(instr.Index)))
 
 	case *ssa.MapUpdate:
-		m := fr.get(instr.Map)
-		key := fr.get(instr.Key)
-		v := fr.get(instr.Value)
-		switch m := m.(type) {
-		case map[value]value:
-			m[key] = v
-		case *hashmap:
-			m.insert(key.(hashable), v)
-		default:
-			panic(fmt.Sprintf("illegal map type: %T", m))
+		m, ok := fr.get(instr.Map).(*amap)
+		if !ok {
+			panic(engineErr(fmt.Sprintf("illegal map type: %T", fr.get(instr.Map))))
 		}
+		if m == nil {
+			panic(runtimePanic{"assignment to entry in nil map"})
+		}
+		m.insert(fr, fr.get(instr.Key), fr.get(instr.Value))
 
 	case *ssa.TypeAssert:
-		fr.env[instr] = typeAssert(fr.i, instr, fr.get(instr.X).(iface))
+		fr.set(instr, typeAssert(fr.i, instr, fr.get(instr.X).(iface)))
 
 	case *ssa.MakeClosure:
-		var bindings []value
+		bindings := make([]value, 0, len(instr.Bindings))
 		for _, binding := range instr.Bindings {
 			bindings = append(bindings, fr.get(binding))
 		}
-		fr.env[instr] = &closure{instr.Fn.(*ssa.Function), bindings}
+		fr.set(instr, &closure{instr.Fn.(*ssa.Function), bindings})
 
 	case *ssa.Phi:
-		log.Fatal("unreachable") // phis are processed at block entry
+		panic(engineErr("unreachable: phi")) // phis are processed at block entry
 
 	case *ssa.Select:
-		var cases []reflect.SelectCase
-		if !instr.Blocking {
-			cases = append(cases, reflect.SelectCase{
-				Dir: reflect.SelectDefault,
-			})
-		}
-		for _, state := range instr.States {
-			var dir reflect.SelectDir
-			if state.Dir == types.RecvOnly {
-				dir = reflect.SelectRecv
-			} else {
-				dir = reflect.SelectSend
-			}
-			var send reflect.Value
-			if state.Send != nil {
-				send = reflect.ValueOf(fr.get(state.Send))
-			}
-			cases = append(cases, reflect.SelectCase{
-				Dir:  dir,
-				Chan: reflect.ValueOf(fr.get(state.Chan)),
-				Send: send,
-			})
-		}
-		chosen, recv, recvOk := reflect.Select(cases)
-		if !instr.Blocking {
-			chosen-- // default case should have index -1.
-		}
-		r := tuple{chosen, recvOk}
-		for i, st := range instr.States {
-			if st.Dir == types.RecvOnly {
-				var v value
-				if i == chosen && recvOk {
-					// No need to copy since send makes an unaliased copy.
-					v = recv.Interface().(value)
-				} else {
-					v = zero(st.Chan.Type().Underlying().(*types.Chan).Elem())
-				}
-				r = append(r, v)
-			}
-		}
-		fr.env[instr] = r
+		fr.set(instr, doSelect(fr, instr))
 
 	default:
-		panic(fmt.Sprintf("unexpected instruction: %T", instr))
+		panic(engineErr(fmt.Sprintf("unexpected instruction: %T", instr)))
 	}
-
-	// if val, ok := instr.(ssa.Value); ok {
-	// 	fmt.Println(toString(fr.env[val])) // debugging
-	// }
 
 	return kNext
 }
@@ -446,18 +464,20 @@ func prepareCall(fr *frame, call *ssa.CallCommon) (fn value, args []value) {
 	if call.Method == nil {
 		// Function call.
 		fn = v
+		args = make([]value, 0, len(call.Args))
 	} else {
 		// Interface method invocation.
 		recv := v.(iface)
 		if recv.t == nil {
-			panic("method invoked on nil interface")
+			panic(runtimePanic{"runtime error: invalid memory address or nil pointer dereference (method " + call.Method.Name() + " invoked on nil interface)"})
 		}
 		if f := lookupMethod(fr.i, recv.t, call.Method); f == nil {
 			// Unreachable in well-typed programs.
-			panic(fmt.Sprintf("method set for dynamic type %v does not contain %s", recv.t, call.Method))
+			panic(engineErr(fmt.Sprintf("method set for dynamic type %v does not contain %s", recv.t, call.Method)))
 		} else {
 			fn = f
 		}
+		args = make([]value, 0, len(call.Args)+1)
 		args = append(args, recv.v)
 	}
 	for _, arg := range call.Args {
@@ -473,7 +493,7 @@ func call(i *interpreter, caller *frame, callpos token.Pos, fn value, args []val
 	switch fn := fn.(type) {
 	case *ssa.Function:
 		if fn == nil {
-			panic("call of nil function") // nil of func type
+			panic(runtimePanic{"runtime error: invalid memory address or nil pointer dereference (call of nil func)"})
 		}
 		return callSSA(i, caller, callpos, fn, args, nil)
 	case *closure:
@@ -481,7 +501,7 @@ func call(i *interpreter, caller *frame, callpos token.Pos, fn value, args []val
 	case *ssa.Builtin:
 		return callBuiltin(caller, callpos, fn, args)
 	}
-	panic(fmt.Sprintf("cannot call %T", fn))
+	panic(engineErr(fmt.Sprintf("cannot call %T", fn)))
 }
 
 func loc(fset *token.FileSet, pos token.Pos) string {
@@ -491,13 +511,14 @@ func loc(fset *token.FileSet, pos token.Pos) string {
 	return " at " + fset.Position(pos).String()
 }
 
+const maxCallDepth = 400
+
 // callSSA interprets a call to function fn with arguments args,
 // and lexical environment env, returning its result.
 // callpos is the position of the callsite.
 func callSSA(i *interpreter, caller *frame, callpos token.Pos, fn *ssa.Function, args []value, env []value) value {
 	if i.mode&EnableTracing != 0 {
 		fset := fn.Prog.Fset
-		// TODO(adonovan): fix: loc() lies for external functions.
 		fmt.Fprintf(os.Stderr, "Entering %s%s.\n", fn, loc(fset, fn.Pos()))
 		suffix := ""
 		if caller != nil {
@@ -506,89 +527,115 @@ func callSSA(i *interpreter, caller *frame, callpos token.Pos, fn *ssa.Function,
 		defer fmt.Fprintf(os.Stderr, "Leaving %s%s.\n", fn, suffix)
 	}
 	fr := &frame{
-		i:      i,
-		caller: caller, // for panic/recover
-		fn:     fn,
+		i:       i,
+		caller:  caller, // for panic/recover
+		fn:      fn,
+		callpos: callpos,
 	}
 	if fn.Parent() == nil {
-		name := fn.String()
-		if ext := externals[name]; ext != nil {
-			if i.mode&EnableTracing != 0 {
-				fmt.Fprintln(os.Stderr, "\t(external)")
+		if fn.Pkg != nil && i.ld.target[fn.Pkg] && len(fn.Name()) > 2 && fn.Name()[:2] == "vf" && fn.Signature.Recv() == nil {
+			if ext := vfIntrinsics[fn.Name()]; ext != nil {
+				return ext(fr, args)
 			}
+		}
+		name := fn.String()
+		if ext := intrinsics[name]; ext != nil {
 			return ext(fr, args)
 		}
+		if fn.Pkg != nil && !i.ld.target[fn.Pkg] && fn.Name() == "init" {
+			return nil // initialisers of non-target packages are not run
+		}
+		if fn.Pkg != nil && !i.ld.target[fn.Pkg] && !interpretable[name] {
+			panic(engineErr("unsupported external function: " + name))
+		}
 		if fn.Blocks == nil {
-			panic("no code for function: " + name)
+			// synthetic wrapper of an external method, or not built
+			if fn.Synthetic != "" && fn.Pkg == nil {
+				panic(engineErr("no code for synthetic function: " + name + " (" + fn.Synthetic + ")"))
+			}
+			panic(engineErr("no code for function: " + name))
 		}
 	}
 
 	// generic function body?
 	if fn.TypeParams().Len() > 0 && len(fn.TypeArgs()) == 0 {
-		panic("interp requires ssa.BuilderMode to include InstantiateGenerics to execute generics")
+		panic(engineErr("generic function body: " + fn.String()))
+	}
+	i.depth++
+	if i.depth > maxCallDepth {
+		panic(pathAbort{"unwind", "call depth bound exceeded in " + fn.String()})
+	}
+	defer func() { i.depth-- }()
+
+	if i.pc != nil && i.pc.run != nil && i.ld.target[fn.Pkg] {
+		for _, a := range args {
+			if _, ok := a.(*sym); ok {
+				i.pc.touch(fn)
+				break
+			}
+		}
 	}
 
-	fr.env = make(map[ssa.Value]value)
+	fr.info = i.infoFor(fn)
+	fr.env = make([]value, fr.info.n)
 	fr.block = fn.Blocks[0]
 	fr.locals = make([]value, len(fn.Locals))
 	for i, l := range fn.Locals {
-		fr.locals[i] = zero(typeparams.MustDeref(l.Type()))
-		fr.env[l] = &fr.locals[i]
+		fr.locals[i] = zero(mustDeref(l.Type()))
+		fr.set(l, &fr.locals[i])
 	}
 	for i, p := range fn.Params {
-		fr.env[p] = args[i]
+		fr.set(p, args[i])
 	}
 	for i, fv := range fn.FreeVars {
-		fr.env[fv] = env[i]
+		fr.set(fv, env[i])
 	}
 	for fr.block != nil {
 		runFrame(fr)
-	}
-	// Destroy the locals to avoid accidental use after return.
-	for i := range fn.Locals {
-		fr.locals[i] = bad{}
 	}
 	return fr.result
 }
 
 // runFrame executes SSA instructions starting at fr.block and
 // continuing until a return, a panic, or a recovered panic.
-//
-// After a panic, runFrame panics.
-//
-// After a normal return, fr.result contains the result of the call
-// and fr.block is nil.
-//
-// A recovered panic in a function without named return parameters
-// (NRPs) becomes a normal return of the zero value of the function's
-// result type.
-//
-// After a recovered panic in a function with NRPs, fr.result is
-// undefined and fr.block contains the block at which to resume
-// control.
 func runFrame(fr *frame) {
 	defer func() {
 		if fr.block == nil {
 			return // normal return
 		}
+		p := recover()
+		if isAbort(p) {
+			panic(p)
+		}
 		if fr.i.mode&DisableRecover != 0 {
-			return // let interpreter crash
+			panic(p)
+		}
+		if re, ok := p.(runtime.Error); ok {
+			// A raw Go run-time error inside the engine while executing
+			// target semantics; keep the engine stack for diagnosis.
+			if _, isTA := re.(*runtime.TypeAssertionError); isTA {
+				buf := make([]byte, 4096)
+				buf = buf[:runtime.Stack(buf, false)]
+				panic(engineErr("engine type assertion: " + re.Error() + "\n" + string(buf)))
+			}
+			if fr.i.pc != nil && fr.i.pc.rawPanicStack == "" {
+				buf := make([]byte, 4096)
+				buf = buf[:runtime.Stack(buf, false)]
+				fr.i.pc.rawPanicStack = string(buf)
+			}
+		}
+		if fr.i.pc != nil && fr.i.pc.panicSite == "" {
+			fr.i.pc.panicSite = fr.site()
 		}
 		fr.panicking = true
-		fr.panic = recover()
-		if fr.i.mode&EnableTracing != 0 {
-			fmt.Fprintf(os.Stderr, "Panicking: %T %v.\n", fr.panic, fr.panic)
-		}
+		fr.panic = p
 		fr.runDefers()
 		fr.block = fr.fn.Recover
 	}()
 
 	for {
-		if fr.i.mode&EnableTracing != 0 {
-			fmt.Fprintf(os.Stderr, ".%s:\n", fr.block)
-		}
-
 		nonPhis := executePhis(fr)
+		pc := fr.i.pc
 		for _, instr := range nonPhis {
 			if fr.i.mode&EnableTracing != 0 {
 				if v, ok := instr.(ssa.Value); ok {
@@ -597,12 +644,29 @@ func runFrame(fr *frame) {
 					fmt.Fprintln(os.Stderr, "\t", instr)
 				}
 			}
+			pc.instrs++
+			if pc.instrs > pc.instrBudget {
+				panic(pathAbort{"unwind", "instruction budget exceeded (possible non-termination) in " + fr.fn.String()})
+			}
 			if visitInstr(fr, instr) == kReturn {
 				return
 			}
 			// Inv: kNext (continue) or kJump (last instr)
 		}
 	}
+}
+
+// site describes the current source position of the innermost target frame.
+func (fr *frame) site() string {
+	for f := fr; f != nil; f = f.caller {
+		if f.fn != nil && f.fn.Pkg != nil && f.i.ld.target[f.fn.Pkg] && !f.i.ld.harnessFns[f.fn] {
+			return f.fn.String()
+		}
+	}
+	if fr.fn != nil {
+		return fr.fn.String()
+	}
+	return "?"
 }
 
 // executePhis executes the phi-nodes at the start of the current
@@ -620,21 +684,14 @@ func executePhis(fr *frame) []ssa.Instruction {
 	nonPhis := fr.block.Instrs[firstNonPhi:]
 	if firstNonPhi > 0 {
 		phis := fr.block.Instrs[:firstNonPhi]
-		// Execute parallel assignment of phis.
-		//
-		// See "the swap problem" in Briggs et al's "Practical Improvements
-		// to the Construction and Destruction of SSA Form" for discussion.
 		predIndex := slices.Index(fr.block.Preds, fr.prevBlock)
 		fr.phitemps = fr.phitemps[:0]
 		for _, phi := range phis {
 			phi := phi.(*ssa.Phi)
-			if fr.i.mode&EnableTracing != 0 {
-				fmt.Fprintln(os.Stderr, "\t", phi.Name(), "=", phi)
-			}
 			fr.phitemps = append(fr.phitemps, fr.get(phi.Edges[predIndex]))
 		}
 		for i, phi := range phis {
-			fr.env[phi.(*ssa.Phi)] = fr.phitemps[i]
+			fr.set(phi.(*ssa.Phi), fr.phitemps[i])
 		}
 	}
 	return nonPhis
@@ -642,10 +699,6 @@ func executePhis(fr *frame) []ssa.Instruction {
 
 // doRecover implements the recover() built-in.
 func doRecover(caller *frame) value {
-	// recover() must be exactly one level beneath the deferred
-	// function (two levels beneath the panicking function) to
-	// have any effect.  Thus we ignore both "defer recover()" and
-	// "defer f() -> g() -> recover()".
 	if caller.i.mode&DisableRecover == 0 &&
 		caller != nil && !caller.panicking &&
 		caller.caller != nil && caller.caller.panicking {
@@ -653,11 +706,12 @@ func doRecover(caller *frame) value {
 		p := caller.caller.panic
 		caller.caller.panic = nil
 
-		// TODO(adonovan): support runtime.Goexit.
 		switch p := p.(type) {
 		case targetPanic:
 			// The target program explicitly called panic().
 			return p.v
+		case runtimePanic:
+			return iface{caller.i.runtimeErrorString, p.msg}
 		case runtime.Error:
 			// The interpreter encountered a runtime error.
 			return iface{caller.i.runtimeErrorString, p.Error()}
@@ -665,91 +719,10 @@ func doRecover(caller *frame) value {
 			// The interpreter explicitly called panic().
 			return iface{caller.i.runtimeErrorString, p}
 		default:
-			panic(fmt.Sprintf("unexpected panic type %T in target call to recover()", p))
+			panic(engineErr(fmt.Sprintf("unexpected panic type %T in target call to recover()", p)))
 		}
 	}
 	return iface{}
 }
 
-// Interpret interprets the Go program whose main package is mainpkg.
-// mode specifies various interpreter options.  filename and args are
-// the initial values of os.Args for the target program.  sizes is the
-// effective type-sizing function for this program.
-//
-// Interpret returns the exit code of the program: 2 for panic (like
-// gc does), or the argument to os.Exit for normal termination.
-//
-// The SSA program must include the "runtime" package.
-//
-// Type parameterized functions must have been built with
-// InstantiateGenerics in the ssa.BuilderMode to be interpreted.
-func Interpret(mainpkg *ssa.Package, mode Mode, sizes types.Sizes, filename string, args []string) (exitCode int) {
-	i := &interpreter{
-		prog:       mainpkg.Prog,
-		globals:    make(map[*ssa.Global]*value),
-		mode:       mode,
-		sizes:      sizes,
-		goroutines: 1,
-	}
-	runtimePkg := i.prog.ImportedPackage("runtime")
-	if runtimePkg == nil {
-		panic("ssa.Program doesn't include runtime package")
-	}
-	i.runtimeErrorString = runtimePkg.Type("errorString").Object().Type()
-
-	initReflect(i)
-
-	i.osArgs = append(i.osArgs, filename)
-	for _, arg := range args {
-		i.osArgs = append(i.osArgs, arg)
-	}
-
-	for _, pkg := range i.prog.AllPackages() {
-		// Initialize global storage.
-		for _, m := range pkg.Members {
-			switch v := m.(type) {
-			case *ssa.Global:
-				cell := zero(typeparams.MustDeref(v.Type()))
-				i.globals[v] = &cell
-			}
-		}
-	}
-
-	// Top-level error handler.
-	exitCode = 2
-	defer func() {
-		if exitCode != 2 || i.mode&DisableRecover != 0 {
-			return
-		}
-		switch p := recover().(type) {
-		case exitPanic:
-			exitCode = int(p)
-			return
-		case targetPanic:
-			fmt.Fprintln(os.Stderr, "panic:", toString(p.v))
-		case runtime.Error:
-			fmt.Fprintln(os.Stderr, "panic:", p.Error())
-		case string:
-			fmt.Fprintln(os.Stderr, "panic:", p)
-		default:
-			fmt.Fprintf(os.Stderr, "panic: unexpected type: %T: %v\n", p, p)
-		}
-
-		// TODO(adonovan): dump panicking interpreter goroutine?
-		// buf := make([]byte, 0x10000)
-		// runtime.Stack(buf, false)
-		// fmt.Fprintln(os.Stderr, string(buf))
-		// (Or dump panicking target goroutine?)
-	}()
-
-	// Run!
-	call(i, nil, token.NoPos, mainpkg.Func("init"), nil)
-	if mainFn := mainpkg.Func("main"); mainFn != nil {
-		call(i, nil, token.NoPos, mainFn, nil)
-		exitCode = 0
-	} else {
-		fmt.Fprintln(os.Stderr, "No main function.")
-		exitCode = 1
-	}
-	return
-}
+var _ = reflect.TypeOf
